@@ -1099,7 +1099,17 @@ def foreign_items():
 def work(item):
     part, arg = item
     if part == 'foreign':
-        return [foreign_case(*t) if t[0] != 'KE' else foreign_ke_case(t[1], t[2]) for t in arg]
+        out = []
+        for t in arg:
+            try:
+                out.append(foreign_case(*t) if t[0] != 'KE' else foreign_ke_case(t[1], t[2]))
+            except IndexError:
+                # the scenario could not be set up: the ordinary exchanges before the foreign request did not go through
+                # (two daemons with the same policy) - no datagram where one must be
+                out.append(dict(outcome=('not-staged',) + tuple(t), found=[(
+                    'foreign:%s:cannot-be-staged' % t[0 if t[0] != 'KE' else 1], 'the exchanges between two daemons with the same '
+                    'policy that precede the foreign request %r did not produce the expected datagram' % (t,))]))
+        return out
     if part == 'unit':
         return unit_worker(arg)
     if part == 'e2e':
@@ -1107,10 +1117,17 @@ def work(item):
     return [tamper_case(*t) for t in arg]
 
 
+STAGE_REFUSED = []
+
+
 def tamper_items():
     out = []
     for target in ('INIT', 'AUTH', 'CCSA'):
         tap, req, d, res = stage(target)
+        if not any(ty == 33 for ty, _ in res['payloads']):
+            # the authentic exchange between two daemons with the same policy is refused: nothing to rewrite
+            STAGE_REFUSED.append(target)
+            continue
         labels = [m[0] for m in mutations(target, req, res)]
         if len(labels) != len(set(labels)):
             raise SystemExit('C11: duplicate mutation labels')
@@ -1167,6 +1184,10 @@ def main():
     identity_premise()
     cases = e2e_cases(ck.quick)
     titems = tamper_items()
+    for target in STAGE_REFUSED:
+        ck.violation('tamper:%s:authentic-exchange-refused' % target, 'two daemons with the same policy (several algorithms and DH '
+                     'groups per type): the untouched %s response carries no SA payload, the offer was refused' % target,
+                     dict(part='tamper-stage', target=target))
     rnd.shuffle(cases)
     work_items = [('unit', (kind, i)) for kind in ('ike', 'child') for i in range(len(U[kind]['locals']))]
     work_items += [('e2e', cases[k:k + 16]) for k in range(0, len(cases), 16)]
